@@ -849,6 +849,77 @@ static std::string run_cmd(const std::vector<std::string>& a) {
         upa::url_search_params::name_value_list l; WITH_STR(t, S, l = upa::url_search_params::do_parse(rem, S));
         std::ostringstream o; o << "urlenc_parse "; bool f = true; for (auto& kv : l) { o << (f ? "" : ",") << hx(kv.first) << "=" << hx(kv.second); f = false; } if (f) o << "-"; return o.str(); }
     if (c == "icuinfo") { std::ostringstream o; o << "icuinfo options=" << g_icu_options.load() << " open_calls=" << g_icu_open_calls.load() << " toascii_calls=" << g_icu_toascii_calls.load(); return o.str(); }
+    if (c == "raw") {   // raw <slot>: the unnormalised hidden representation (used by the generator of the `ser` stream, not compared)
+        need(1); const int sl = slot_of(a[1]); if (sl < 0) return "ERR"; const upa::url& u = U(sl);
+        std::ostringstream o; o << "raw " << hx(u.norm_url_) << " ";
+        for (int i = 0; i < upa::url::PART_COUNT; ++i) o << (i ? "," : "") << u.part_end_[i];
+        o << " " << u.flags_ << " " << u.path_segment_count_ << " " << (u.is_file_scheme() ? 1 : 0) << " " << (u.is_valid() ? 1 : 0);
+        return o.str(); }
+    if (c == "ser") {
+        // ser <S|T> <norm hex|-> <e0,...,e10> <flags> <segs> <file> <op>...   (Impl/SerProto.v)
+        // a real url_serializer (S) / url_setter (T) bound to a real url whose private members are set as given;
+        // every member is printed after every operation
+        if (a.size() < 7) return "ERR bad-arity";
+        auto unhex = [](const std::string& h, std::string& out) -> bool {
+            out.clear(); if (h == "-") return true; if (h.size() % 2) return false;
+            for (std::size_t i = 0; i < h.size(); i += 2) { const int x = hexv(h[i]), y = hexv(h[i + 1]); if (x < 0 || y < 0) return false; out.push_back(static_cast<char>(x * 16 + y)); }
+            return true; };
+        auto nums = [](const std::string& t, char sep) { std::vector<std::size_t> v; std::size_t i = 0;
+            while (i <= t.size()) { std::size_t j = t.find(sep, i); if (j == std::string::npos) j = t.size(); v.push_back(static_cast<std::size_t>(std::strtoull(t.substr(i, j - i).c_str(), nullptr, 10))); i = j + 1; }
+            return v; };
+        upa::url u;
+        if (!unhex(a[2], u.norm_url_)) return "ERR bad-norm";
+        { const auto e = nums(a[3], ','); if (e.size() != upa::url::PART_COUNT) return "ERR bad-ends"; for (std::size_t i = 0; i < e.size(); ++i) u.part_end_[i] = e[i]; }
+        u.flags_ = static_cast<unsigned>(sz_of(a[4])); u.path_segment_count_ = sz_of(a[5]);
+        u.scheme_inf_ = a[6] == "1" ? upa::url::get_scheme_info(upa::string_view{ "file", 4 }) : nullptr;
+        const bool setter = a[1] == "T";
+        std::unique_ptr<upa::detail::url_serializer> sp(setter ? new upa::detail::url_setter(u) : new upa::detail::url_serializer(u));
+        upa::detail::url_serializer& ss = *sp;
+        upa::detail::url_setter* st = setter ? static_cast<upa::detail::url_setter*>(sp.get()) : nullptr;
+        std::string* tgt = &u.norm_url_;
+        std::ostringstream o; o << "ser";
+        auto list = [](const std::vector<std::size_t>& v) { if (v.empty()) return std::string("-"); std::string r; for (std::size_t i = 0; i < v.size(); ++i) r += (i ? "," : "") + std::to_string(v[i]); return r; };
+        for (std::size_t k = 7; k < a.size(); ++k) {
+            const std::string& t = a[k];
+            auto num = [&](std::size_t from) { return static_cast<std::size_t>(std::strtoull(t.c_str() + from, nullptr, 10)); };
+            bool bad = false;
+            if (t == "ss") tgt = &ss.start_scheme();
+            else if (t == "vs") ss.save_scheme();
+            else if (t == "sv") ss.save_part();
+            else if (t == "ps") tgt = &ss.start_path_segment();
+            else if (t == "pv") ss.save_path_segment();
+            else if (t == "pe") ss.append_empty_path_segment();
+            else if (t == "cp") ss.commit_path();
+            else if (t == "sh") ss.shorten_path();
+            else if (t == "pss") tgt = &ss.start_path_string();
+            else if (t == "psv") { ss.save_part(); }   // save_path_string() = assert + save_part()
+            else if (t == "seh") ss.set_empty_host();
+            else if (t == "eh") ss.empty_host();
+            else if (t == "hs") tgt = &ss.hostStart();
+            else if (t == "st") { if (st) st->potentially_strip_trailing_spaces_from_an_opaque_path(); }
+            else if (t.compare(0, 2, "a:") == 0) { std::string x; if (!unhex(t.substr(2), x)) bad = true; else tgt->append(x); }
+            else if (t.compare(0, 2, "sp") == 0) tgt = &ss.start_part(static_cast<upa::url::PartType>(num(2)));
+            else if (t.compare(0, 2, "hd") == 0) ss.hostDone(static_cast<upa::HostType>(num(2)));
+            else if (t.compare(0, 2, "cl") == 0) ss.clear_part(static_cast<upa::url::PartType>(num(2)));
+            else if (t.compare(0, 2, "em") == 0) { if (st) st->empty_part(static_cast<upa::url::PartType>(num(2))); }
+            else if (t.compare(0, 2, "fl") == 0) ss.set_flag(static_cast<upa::url::UrlFlag>(num(2)));
+            else if (t.compare(0, 2, "rp") == 0) {
+                const std::size_t col = t.find(':'); std::string x;
+                if (col == std::string::npos || !unhex(t.substr(col + 1), x)) bad = true;
+                else { const auto v = nums(t.substr(2, col - 2), ','); if (v.size() != 3) bad = true;
+                       else ss.replace_part(static_cast<upa::url::PartType>(v[0]), x.data(), x.length(), static_cast<upa::url::PartType>(v[1]), v[2]); } }
+            else if (t.compare(0, 2, "fi") == 0) { const auto v = nums(t.substr(2), ','); if (v.size() != 3) bad = true;
+                       else ss.fill_parts_offset(static_cast<upa::url::PartType>(v[0]), static_cast<upa::url::PartType>(v[1]), v[2]); }
+            else bad = true;
+            if (bad) { o << " | ERR bad-op"; break; }
+            o << " | " << hx(u.norm_url_) << " ";
+            for (int i = 0; i < upa::url::PART_COUNT; ++i) o << (i ? "," : "") << u.part_end_[i];
+            o << " " << u.flags_ << " " << u.path_segment_count_ << " " << (u.is_file_scheme() ? 1 : 0) << " " << static_cast<int>(ss.last_pt_);
+            if (st) o << " " << (st->use_strp_ ? 1 : 0) << " " << hx(st->strp_) << " " << list(st->path_seg_end_) << " " << static_cast<int>(st->curr_pt_);
+            else o << " 1 - - 0";
+        }
+        return o.str();
+    }
     if (c == "buf_add") { need(3); g_fake_max = sz_of(a[1]); FakeBuf b;
         try { const std::size_t r = b.add_sizes(sz_of(a[2]), sz_of(a[3])); return "buf_add ok " + std::to_string(r); } catch (const std::length_error&) { return "buf_add length_error"; } }
     if (c == "buf_grow") { need(3); g_fake_max = sz_of(a[1]); FakeBuf b; b.capacity_ = sz_of(a[2]);   // size_ = 0: nothing is copied
